@@ -215,6 +215,7 @@ def check_cli():
     mm = metamodel_from_str(GRAMMAR)
     REG.register_language(REG.LanguageDesc('c30lang', pattern='*.c30l', description='x', metamodel=lambda: mm))
     out = []
+    nchecks = [4]
     tmpd = tempfile.mkdtemp(prefix='c30c_')
     records = []
 
@@ -244,6 +245,27 @@ def check_cli():
             elif want == 1 and not ('x.c30l' in msg and ':1:' in msg):
                 out.append({'kind': 'check', 'content': content, 'detail': 'error not located: %r' % msg[:100]})
             os.remove(fn)
+        # several files of two registered languages in one invocation, every order and validity
+        mm2 = metamodel_from_str("Other: 'other' n=INT;")
+        REG.register_language(REG.LanguageDesc('c30other', pattern='*.c30o', description='y', metamodel=lambda: mm2))
+        import itertools
+        cases = {'a.c30l': ('m foo', 0), 'bad.c30l': ('other 3', 1), 'b.c30o': ('other 3', 0), 'bad.c30o': ('m foo', 1)}
+        for names in itertools.permutations(cases, 2):
+            for nm in names:
+                with open(os.path.join(tmpd, nm), 'w') as f:
+                    f.write(cases[nm][0])
+            want = 1 if any(cases[nm][1] for nm in names) else 0
+            del records[:]
+            try:
+                cb(StubCtx(), tuple(os.path.join(tmpd, nm) for nm in names), None, None, False)
+                code = 0
+            except SystemExit as e:
+                code = e.code
+            nchecks[0] += 1
+            if code != want:
+                out.append({'kind': 'check', 'content': 'files %s' % (names,), 'exit': code, 'expected': want})
+            for nm in names:
+                os.remove(os.path.join(tmpd, nm))
     finally:
         root.removeHandler(h)
         for oh in old_handlers:
@@ -252,7 +274,7 @@ def check_cli():
             os.rmdir(tmpd)
         except OSError:
             pass
-    return 4, out
+    return nchecks[0], out
 
 
 def main():
